@@ -73,5 +73,6 @@ impl mpsc::Receiver<()> {
 // start(): the polling task is handed to the scheduler.  Under E2 the argument of tokio::spawn has
 // been evaluated (the contract of poll_forever: the height never decreases); spawning itself is
 // not under contract.
-pub struct JoinHandle<T> { pub p: core::marker::PhantomData<T> }
+// `id`: ghost identity (a struct of PhantomData only would be single-valued: any two values provably equal)
+pub struct JoinHandle<T> { pub p: core::marker::PhantomData<T>, pub id: Ghost<int> }
 pub struct TryLockError { pub _p: u8 }
